@@ -1,10 +1,149 @@
 import VOPyVerif.Drv.Proto
-/-! Driver front end for property C07 (line protocol → executable model). -/
+import VOPyVerif.Model.Acq
+/-! Driver front end for property C07 (acquisition maximisers; what reaches the model).
+
+Numbers are exact rationals, `<vals>` a vector, `<table>` a matrix with one row per objective
+(`table[j][i]` = value of choice row `i` for objective `j`), `<q>` a natural number.
+
+* `optd <vals> <q>`                       → `err` | `<positions> <values>` — `Acq.optimizeDiscrete`
+  (`err` = the code's crash for `q > len(choices)`)
+* `optdtotal <vals> <q>`                  → `<positions> <values>` — `Acq.optimizeDiscreteTotal`
+* `specd <vals> <q> <positions> <values>` → `ok` | `fail` — relation (R) `Acq.discSpecOk`
+* `firstd <vals> <positions> <values>`    → `ok` | `fail` — `Acq.discFirstOk` (np.argmax tie rule)
+* `optdec <table> <q>`                    → `err` | `<positions> <objectives> <values>` —
+  `Acq.optimizeDecoupled`
+* `specdec <table> <q> <positions> <objectives> <values>` → `ok` | `fail` — `Acq.decSpecOk`
+* `diagsq <lower> <upper>`                → rational `Acq.diagSq`
+* `sumvar <cov>`                          → rational `Acq.sumVariance`
+* `varcost <cov> <j> <costs|none>`        → rational | `err` — `Acq.varianceOverCost`
+* `evalall <S> <U>`                       → nat list `Acq.evaluateAll`
+* `gpadd <inputDim> <dataX> <dataY> <X> <Y>` → `<dataX'> <dataY'>` — `Acq.gpAddSample`
+* `listadd <inputDim> <m> <storesX (mats)> <storesY (matrix, row per objective)> <X> <Y vec> <dims>`
+  → `err` | `<storesX'> <storesY'>` — `Acq.listAddSample` (`m` objectives; missing trailing
+  stores are empty — the text format cannot distinguish "no store" from "one empty store")
+* `empadd <n> <samples (mats, one matrix per design)> <indices> <Y>` → `err` | `<samples'>` —
+  `Acq.empAddSample` (`n` designs; missing trailing sample lists are empty)
+* `step <inputDim> <designs> <vals> <q> <obs (row i = observation of design row i)> <dataX> <dataY>`
+  → `err` | `<candidates> <dataX'> <dataY'>` — `Acq.evaluatingStep`
+-/
 namespace VOPy.Drv.C07
-open VOPy VOPy.Proto
+open VOPy VOPy.Proto VOPy.Acq
+
+def fmtPicks (p : List (Nat × Rat)) : String :=
+  fmtNats (p.map (·.1)) ++ " " ++ fmtVec (p.map (·.2))
+
+def fmtEntries (p : List Entry) : String :=
+  fmtNats (p.map (·.pos)) ++ " " ++ fmtNats (p.map (·.obj)) ++ " " ++ fmtVec (p.map (·.val))
+
+def fmtMats (ms : List Mat) : String := fmtList "|" fmtMat ms
+
+def fmtObs (d : List Obs) : String := fmtMat (d.map (·.x)) ++ " " ++ fmtMat (d.map (·.y))
+
+def zipObs (X Y : Mat) : Option (List Obs) :=
+  if X.length = Y.length then some (List.zipWith (fun x y => ⟨x, y⟩) X Y) else none
+
+def zip3 (a : List Nat) (b : List Nat) (c : List Rat) : Option (List Entry) :=
+  if a.length = b.length ∧ b.length = c.length then
+    some (List.zipWith (fun (p : Nat × Nat) v => ⟨p.1, p.2, v⟩) (a.zip b) c)
+  else none
 
 def handle (args : List String) : String :=
   match args with
+  | ["optd", v, q] =>
+    match parseVec v, q.toNat? with
+    | some vals, some q =>
+      match optimizeDiscrete vals q with
+      | none => "err"
+      | some p => fmtPicks p
+    | _, _ => bad
+  | ["optdtotal", v, q] =>
+    match parseVec v, q.toNat? with
+    | some vals, some q => fmtPicks (optimizeDiscreteTotal vals q)
+    | _, _ => bad
+  | ["specd", v, q, ps, vs] =>
+    match parseVec v, q.toNat?, parseNats ps, parseVec vs with
+    | some vals, some q, some P, some V =>
+      if P.length ≠ V.length then bad
+      else if discSpecOk vals q (P.zip V) then "ok" else "fail"
+    | _, _, _, _ => bad
+  | ["firstd", v, ps, vs] =>
+    match parseVec v, parseNats ps, parseVec vs with
+    | some vals, some P, some V =>
+      if P.length ≠ V.length then bad
+      else if discFirstOk vals (P.zip V) then "ok" else "fail"
+    | _, _, _ => bad
+  | ["optdec", t, q] =>
+    match parseMat t, q.toNat? with
+    | some table, some q =>
+      match optimizeDecoupled table q with
+      | none => "err"
+      | some p => fmtEntries p
+    | _, _ => bad
+  | ["specdec", t, q, ps, os, vs] =>
+    match parseMat t, q.toNat?, parseNats ps, parseNats os, parseVec vs with
+    | some table, some q, some P, some O, some V =>
+      match zip3 P O V with
+      | none => bad
+      | some sel => if decSpecOk table q sel then "ok" else "fail"
+    | _, _, _, _, _ => bad
+  | ["diagsq", l, u] =>
+    match parseVec l, parseVec u with
+    | some l, some u => if l.length = u.length then fmtRat (diagSq l u) else bad
+    | _, _ => bad
+  | ["sumvar", c] =>
+    match parseMat c with
+    | some cov => if cov.all (fun r => r.length == cov.length) then fmtRat (sumVariance cov) else bad
+    | _ => bad
+  | ["varcost", c, j, cs] =>
+    match parseMat c, j.toNat?, (if cs = "none" then some none else (parseVec cs).map some) with
+    | some cov, some j, some costs =>
+      match varianceOverCost cov j costs with
+      | none => "err"
+      | some r => fmtRat r
+    | _, _, _ => bad
+  | ["evalall", s, u] =>
+    match parseNats s, parseNats u with
+    | some S, some U => fmtNats (evaluateAll S U)
+    | _, _ => bad
+  | ["gpadd", d, dx, dy, x, y] =>
+    match d.toNat?, parseMat dx, parseMat dy, parseMat x, parseMat y with
+    | some d, some DX, some DY, some X, some Y =>
+      match zipObs DX DY with
+      | none => bad
+      | some data => if X.length ≠ Y.length then bad else fmtObs (gpAddSample d data X Y)
+    | _, _, _, _, _ => bad
+  | ["listadd", d, m, sx, sy, x, y, dims] =>
+    match d.toNat?, m.toNat?, parseMats sx, parseMat sy, parseMat x, parseVec y, parseNats dims with
+    | some d, some m, some SX, some SY, some X, some Y, some D =>
+      let SX := SX ++ List.replicate (m - SX.length) []
+      let SY := SY ++ List.replicate (m - SY.length) []
+      if SX.length ≠ SY.length ∨ (List.zipWith (fun a b => a.length != b.length) SX SY).any id
+      then bad
+      else
+        match listAddSample d (List.zipWith List.zip SX SY) X Y D with
+        | none => "err"
+        | some st => fmtMats (st.map (·.map (·.1))) ++ " " ++ fmtMat (st.map (·.map (·.2)))
+    | _, _, _, _, _, _, _ => bad
+  | ["empadd", n, s, i, y] =>
+    match n.toNat?, parseMats s, parseNats i, parseMat y with
+    | some n, some S, some I, some Y =>
+      match empAddSample (S ++ List.replicate (n - S.length) []) I Y with
+      | none => "err"
+      | some st => fmtMats st
+    | _, _, _, _ => bad
+  | ["step", d, ds, v, q, ob, dx, dy] =>
+    match d.toNat?, parseMat ds, parseVec v, q.toNat?, parseMat ob, parseMat dx, parseMat dy with
+    | some d, some designs, some vals, some q, some obs, some DX, some DY =>
+      match zipObs DX DY with
+      | none => bad
+      | some data =>
+        if designs.length ≠ vals.length ∨ designs.length ≠ obs.length then bad
+        else
+          let observe := fun (x : Vec) => ((designs.zip obs).lookup x).getD []
+          match evaluatingStep d designs vals q observe data with
+          | none => "err"
+          | some (cand, data') => fmtMat cand ++ " " ++ fmtObs data'
+    | _, _, _, _, _, _, _ => bad
   | _ => bad
 
 end VOPy.Drv.C07
